@@ -16,19 +16,28 @@ import (
 // the shape of every entry it is shown and which entries it accepted.
 
 const (
-	c26N       = 4 // packets
-	c26Scratch = 2 // mmsghdr entries (and iovecs) per chunk
-	c26Script  = 4 // kernel answers
+	c26N      = 4 // packets
+	c26Script = 4 // kernel answers
 )
+
+// c26Scratch: mmsghdr entries (and iovecs) per chunk; 2 in the general units, 3 in the concrete-layout family
+var c26Scratch = 2
 
 var c26Log = slog.New(slog.DiscardHandler)
 
 func VerifC26WriteBatch() {
+	c26Scratch = verifCase("scratch")
 	nPk := verifCase("packets")
-	w := &batchWriter{fd: -1, isV4: verifBool("sock_v4"), l: c26Log}
-	w.gsoSupported = verifBool("gso")
-	w.maxGSOSegments = 2 + verifInt("extra_segs", 0, 1)
-	bIsV4 := verifBool("b_is_v4")
+	w := &batchWriter{fd: -1, l: c26Log}
+	var bIsV4 bool
+	if verifCase("debug") == 2 {
+		w.isV4, w.gsoSupported, w.maxGSOSegments, bIsV4 = true, true, 2, false
+	} else {
+		w.isV4 = verifBool("sock_v4")
+		w.gsoSupported = verifBool("gso")
+		w.maxGSOSegments = 2 + verifInt("extra_segs", 0, 1)
+		bIsV4 = verifBool("b_is_v4")
+	}
 	if verifCase("focus") == 1 {
 		// the offload-replay family: v4 socket with GSO, 2-segment limit, one of the two destinations unroutable (v6)
 		verifAssume(w.isV4 && w.gsoSupported && w.maxGSOSegments == 2 && !bIsV4)
@@ -50,11 +59,19 @@ func VerifC26WriteBatch() {
 	var toB [c26N]bool
 	var first [c26N]*byte // identity of each (non-empty) packet: the address of its first byte
 	for i := 0; i < nPk; i++ {
-		lens[i] = verifInt(lenN[i], 0, 70000)
+		if verifCase("debug") == 2 {
+			lens[i] = [c26N]int{500, 700, 1200, 1200}[i] // concrete-layout family
+		} else {
+			lens[i] = verifInt(lenN[i], 0, 70000)
+		}
 		backing := make([]byte, 70000) // own buffer per packet (contents irrelevant, identity matters)
 		bufs = append(bufs, backing[:lens[i]])
 		first[i] = &backing[0]
-		toB[i] = verifBool(dstN[i])
+		if verifCase("debug") == 2 {
+			toB[i] = i == 0
+		} else {
+			toB[i] = verifBool(dstN[i])
+		}
 		if verifCase("focus") == 1 {
 			verifAssume(toB[i] == (i == 0)) // first datagram unroutable, the rest to one destination
 		}
@@ -68,6 +85,11 @@ func VerifC26WriteBatch() {
 	// kernel script
 	sentScript := verifWords("sent", c26Script)
 	errScript := verifBytes("errno", c26Script)
+	if verifCase("debug") == 2 {
+		// concrete-layout family: an unroutable datagram, a smaller one, then two equal ones (a GSO run), v4 socket with
+		// GSO and a 2-segment limit; the KERNEL's answers stay arbitrary
+		verifAssume(w.isV4 && gso0 && w.maxGSOSegments == 2 && dstB.Addr().Is6())
+	}
 	if verifCase("debug") == 1 {
 		verifAssume(w.isV4 && gso0 && w.maxGSOSegments == 2 && dstB.Addr().Is6())
 		verifAssume(lens[0] == 500 && toB[0] && lens[1] == 700 && !toB[1] && lens[2] == 1200 && !toB[2] && lens[3] == 1200 && !toB[3])
